@@ -12,7 +12,7 @@ from ..paths import Path, exception_name, function_paths
 from ..poly import Poly
 from ..rulesem import LEFT, RIGHT, classes_of_term, combined_paths, identity_guard, known_classes, method_paths, rule_info
 from ..run import Control
-from ..terms import path_env, show, term
+from ..terms import contains, path_env, show, term
 from .c15 import HWP, PLR, ROT, ROTT, Polarimetry, angle
 
 LEVEL = 'other'
@@ -55,6 +55,7 @@ def run(ctx, ck) -> None:
     _r_drv(ck, world, table)
     _r_nary(ck, world, table)
     _r_ident(ck, world, table)
+    _r_red(ck, world, table)
     _r_raise(ck, world, table, rules, infos)
 
 
@@ -275,6 +276,20 @@ def _r_blk(ck, world, table, rules, infos) -> None:
                 why = f'unrecognised block mapping {show(inner)}'
         ck.expect('R-BLK', ok, fn, 'each reduced block is (left block) @ (right block), left and right containers aligned leaf by leaf',
                   f'the block-wise product multiplies in the wrong order or over misaligned containers: {why}', instance=f'{rule.name} product order')
+        # container alignment: the two containers are mapped together, so their pytree structures must be known equal
+        aligned = False
+        for fs, path, env, afn in combined_paths(world, table, rule):
+            if path.exit != 'return':
+                continue
+            aligned = any(
+                f[0] == 'eq' and len(f[1]) == 2 and all(isinstance(x, tuple) and x[0] == 'call' and show(x[1]).endswith('tree.structure') for x in f[1])
+                and {show(x[2][0]) for x in f[1]} == {'left.blocks', 'right.blocks'}
+                for f in fs
+            )
+        ck.expect('R-BLK', aligned, fn, 'the rewrite is only applied when both block containers have the same pytree structure (otherwise NoReduction)',
+                  f'{rule.name} maps left.blocks and right.blocks together without checking that the two containers have the same pytree structure: for '
+                  'differently nested containers with matching structures (e.g. BlockRow([[B1, B2]]) @ BlockDiagonal([A])) jax.tree.map raises inside reduce()',
+                  instance=f'{rule.name} container alignment')
     ck.floor('R-BLK', n, 4, 'block rules')
 
 
@@ -325,9 +340,18 @@ def _r_ptp(ck, world, table) -> None:
                 e0 = path_env(path, upto=uniq_call)
                 args = [term(a, e0) for a in uniq_call.value.args]
                 kw = {k.arg: term(k.value, e0) for k in uniq_call.value.keywords}
-                uniq_ok = bool(args) and args[0] == index_t and kw.get('return_counts') == ('const', 'True')
+                uniq_ok = bool(args) and contains(args[0], index_t) and kw.get('return_counts') == ('const', 'True')
                 size_t = ('sub', ('call', ('attr', ('call', ('var', 'set'), (), ()), 'pop'), (), ()), axis_t)
                 size_ok = 'size' in kw and show(kw['size']).endswith(f'[{show(axis_t)}]')
+            alias_ok = False
+            if uniq_call is not None and args:
+                a0 = args[0]
+                raw = ('sub', ('attr', R, 'indices'), axis_t)
+                a0s = show(a0)
+                alias_ok = a0 != raw and (' % ' in a0s or 'mod(' in a0s or 'remainder(' in a0s or ('where(' in a0s and ' lt 0' in a0s.replace('(', ' ').replace(')', ' ') or 'where(' in a0s and '< 0' in a0s))
+            ck.expect('R-PTP', alias_ok, fn, 'negative entries are mapped to their non-negative alias before the distinct positions are counted',
+                      'the index array is passed to jnp.unique as is: a negative entry and its non-negative alias (-1 and n-1) are counted as two distinct '
+                      'positions and scattered with unique_indices=True, so the multiplicity diagonal of P^T P is wrong for indices that mix both forms', instance='negative aliases')
             add_ok = cov is not None and '.add' in cov_s and 'item' in repr(cov) or (cov is not None and cov[0] == 'call' and cov[1][0] == 'attr' and cov[1][2] == 'add')
             good = struct_ok and axis_ok and uniq_ok and size_ok and add_ok
             why = f'structure ok={struct_ok}, axis ok={axis_ok}, unique(index along that axis, return_counts) ok={uniq_ok}, size along that axis ok={size_ok}, accumulation by add ok={add_ok}'
@@ -512,6 +536,58 @@ def _r_ident(ck, world, table) -> None:
                       f'{cls.name}.reduce returns an identity ' + ('without a dominating no-op guard' if guard is None else f'on {show(rt[2])} instead of self.in_structure()')
                       + ': an operator that changes its input is replaced by the identity', instance='no-op guard')
     ck.floor('R-IDENT', n, 3, 'identity-returning reduce sites')
+
+
+# ------------------------------------------------------------------------------ R-RED
+def _r_red(ck, world, table) -> None:
+    """Every reduce override returns an operator with the structures of self: self, the identity under its no-op guard
+    (R-IDENT), the same class rebuilt from reduced parts, or - for a sum - its only summand."""
+    n = 0
+    for cls in table.operators():
+        fn = cls.own.get('reduce')
+        if not isinstance(fn, ast.FunctionDef) or cls.name == 'CompositionOperator':
+            continue
+        S = ('var', fn.args.args[0].arg)
+        for p in function_paths(fn):
+            if p.exit != 'return':
+                continue
+            n += 1
+            e = path_env(p)
+            rt = term(p.node.value, e)
+            inst = f'{cls.name} returns {show(rt)[:60]}'
+            if rt == S:
+                ck.ok('R-RED', fn, 'returns self', instance=inst, nontrivial=False)
+            elif rt[0] == 'call' and rt[1] == ('var', 'IdentityOperator'):
+                continue  # R-IDENT
+            elif rt[0] == 'call' and rt[1] == ('call', ('var', 'type'), (S,), ()) and len(rt[2]) == 1 and _maps_reduce(rt[2][0], S):
+                ck.ok('R-RED', fn, 'same class rebuilt from the reduced blocks over the same container', instance=inst)
+            elif rt[0] == 'call' and rt[1][0] == 'var' and rt[1][1] == cls.name and len(rt[2]) == 1 and _maps_reduce(rt[2][0], S):
+                ck.ok('R-RED', fn, 'same class rebuilt from the reduced parts over the same container', instance=inst)
+            elif rt in (('call', ('attr', ('call', ('var', 'super'), (), ()), 'reduce'), (), ()), ('RED', ('call', ('var', 'super'), (), ()))):
+                ck.ok('R-RED', fn, 'the parent reduction (checked on the parent)', instance=inst, nontrivial=False)
+            elif table.is_subclass(cls, table.by_name('AdditionOperator')) and _is_single_leaf(rt, S, p):
+                ck.ok('R-RED', fn, 'a sum with a single summand is that summand (same structures)', instance=inst)
+            elif table.is_subclass(cls, table.by_name('AbstractBlockOperator')) and _element_of_container(rt, S, e):
+                ck.bad('R-RED', fn, f'{cls.name}.reduce returns one of its blocks ({show(rt)[:60]}): the container level of the input/output structure is lost, '
+                       'so the reduced operator no longer has the structures of the original ([A] applied to [x] is not A applied to x)', instance=f'{cls.name} unwraps a block')
+            else:
+                ck.incomplete('R-RED', fn, f'unrecognised result of reduce: {show(rt)[:80]}', instance=inst)
+    ck.floor('R-RED', n, 6, 'returning paths of reduce overrides')
+
+
+def _maps_reduce(t, S) -> bool:
+    return (t[0] == 'call' and t[1] == ('attr', S, '_tree_map') and len(t[2]) == 1 and t[2][0][0] == 'lambda' and len(t[2][0][1]) == 1
+            and t[2][0][2] == ('RED', ('var', t[2][0][1][0])))
+
+
+def _is_single_leaf(rt, S, p) -> bool:
+    txt = ' '.join(ast.unparse(ev[1]) for ev in p.events if ev[0] == 'cond' and ev[2])
+    return rt[0] == 'sub' and rt[2] == ('const', '0') and '== 1' in txt and 'len(' in txt
+
+
+def _element_of_container(rt, S, env) -> bool:
+    s = show(rt)
+    return rt[0] == 'sub' and ('leaves' in s or 'blocks' in s)
 
 
 # ------------------------------------------------------------------------------ R-RAISE
